@@ -562,6 +562,15 @@ def run(ctx: Ctx):
         for col in c1.ao.collections:
             if col.ci.name == "EvaluationAdapter":
                 c1.check_pair(col.ci.name, col.ci, col.D, col.O, "to_aoef", "to_soundevent", [], collection=True, only={"metrics", "score"})
+    # "over the encoded truths and predicted scores": every task encodes through SimpleEncoder / the *_encoding helpers, so
+    # a table keyed by less than the whole tag identity (or an indicator written at the wrong index) changes every value
+    from .c19 import C19
+    with ctx.delegated("C19/"):
+        ctx.rule("R19.1", "encoder table key == lookup key == whole tag identity; decode / num_classes", 5)
+        ctx.rule("R19.2", "first-hit / indicator / score-fill shapes; only vocabulary indices written", 3)
+        c19 = C19(ctx)
+        c19.check_encoder()
+        c19.check_encodings()
     return EXPLANATION, ASSUMPTIONS
 
 
